@@ -139,9 +139,9 @@ func siblingDiffs(all map[string][]cmpSite) []sibDiff {
 			mk := func(ss []cmpSite, sign string) []sibItem {
 				var out []sibItem
 				for _, s := range ss {
-					it := sibItem{sign: sign, n: canonCut(s.p, s.op), r: canonCut(s.pr, s.op), a: canonCutAbs(s.pa, s.op), pos: s.pos}
+					it := sibItem{sign: sign, n: canonCut(s.p, s.cop()), r: canonCut(s.pr, s.cop()), a: canonCutAbs(s.pa, s.cop()), pos: s.pos}
 					it.sa = cutSide(lastAbsPoly, s.rop)
-					it.ra = canonCutAbs(s.pra, s.op)
+					it.ra = canonCutAbs(s.pra, s.cop())
 					it.sn, it.sr = cutSide(s.p, s.rop), cutSide(s.pr, s.rop)
 					for u := range s.uses {
 						it.uses = append(it.uses, u)
@@ -188,7 +188,7 @@ func siblingDiffs(all map[string][]cmpSite) []sibDiff {
 				for _, it := range items {
 					found := false
 					for _, s := range pool {
-						if canonCut(s.pr, s.op) == it.r || canonCutAbs(s.pa, s.op) == it.a || canonCutAbs(s.pra, s.op) == it.ra {
+						if canonCut(s.pr, s.cop()) == it.r || canonCutAbs(s.pa, s.cop()) == it.a || canonCutAbs(s.pra, s.cop()) == it.ra {
 							found = true
 							break
 						}
